@@ -34,6 +34,11 @@ func New(ctx context.Context, cfg config.Config) (*db, error) {
 		},
 	}, cfg.Storage.GCPeriod)
 
+	// The container builds its singletons lazily and without synchronization:
+	// build everything the API methods use before the db is handed out.
+	container.Store()
+	container.Transaction()
+
 	return &db{
 		container: container,
 	}, nil
